@@ -88,7 +88,12 @@ where
 
     if len > 0 {
         let mut aux_reader = reader.take(len);
-        read_header(&mut aux_reader).map(Some)
+        let header = read_header(&mut aux_reader)?;
+
+        // The auxiliary data is `l_aux` bytes long, regardless of how much of it the header uses.
+        io::copy(&mut aux_reader, &mut io::sink())?;
+
+        Ok(Some(header))
     } else {
         Ok(None)
     }
